@@ -199,6 +199,36 @@ pub fn gen_program(d: &mut Dec, thorough: bool) -> Case {
             _ => crate::rx::Rx::Repeat(Box::new(crate::rx::Rx::Group(Box::new(crate::rx::Rx::Empty), crate::rx::GroupKind::NonCapture)), 1, None),
         };
     }
+    if d.chance(20) {
+        // a degenerate mode: one or two patterns that match only the empty string next to one run
+        // of a single character (`aaa`, `a{3}`, `a{2,}b`): few states, few groups, refinement that
+        // needs several rounds with a single split each
+        let mi = d.below(modes.len());
+        let c = gen::gen_char(d);
+        let lit = |c: char| crate::rx::Rx::Lit(c, crate::rx::LitForm::Verbatim);
+        let n = 2 + d.below(4);
+        let mut run = match d.below(3) {
+            0 => crate::rx::Rx::Concat((0..n).map(|_| lit(c)).collect()),
+            1 => crate::rx::Rx::Repeat(Box::new(lit(c)), n as u32, Some(n as u32)),
+            _ => crate::rx::Rx::Repeat(Box::new(lit(c)), n as u32, None),
+        };
+        if d.chance(64) {
+            run = crate::rx::Rx::Concat(vec![run, lit(gen::gen_char(d))]);
+        }
+        let trivial = |d: &mut Dec| match d.below(4) {
+            0 => crate::rx::Rx::Empty,
+            1 => crate::rx::Rx::Repeat(Box::new(lit('b')), 0, Some(0)),
+            2 => crate::rx::Rx::Group(Box::new(crate::rx::Rx::Empty), crate::rx::GroupKind::Capture),
+            _ => crate::rx::Rx::Group(Box::new(crate::rx::Rx::Alt(vec![crate::rx::Rx::Empty, crate::rx::Rx::Empty])), crate::rx::GroupKind::NonCapture),
+        };
+        let mut pats = vec![PatSpec { rx: run, tt: 1 + d.below(3), la: None }];
+        for k in 0..1 + d.below(2) {
+            let at = d.below(pats.len() + 1);
+            pats.insert(at, PatSpec { rx: trivial(d), tt: 5 + k, la: None });
+        }
+        modes[mi].pats = pats;
+        modes[mi].transitions.clear();
+    }
     if d.chance(56) {
         share_token_type(d, &mut modes);
     }
@@ -244,7 +274,7 @@ impl Check for C02 {
         "translation_validation"
     }
     fn rule(&self) -> &'static str {
-        "program = list of modes (1-4 patterns each, lookaheads of both polarities, ~9% with a nullable lookahead pattern, ~8% with a token type shared by several patterns of a mode) from the generator, the bounded-exhaustive tiny pattern pairs, and the repository corpora (tests/data/*.json, benches/veryl_modes.json, README list) translated through regex-syntax; per program the equality 'token types accepted by the compiled automaton after w = token types whose pattern matches w' is decided for ALL non-empty strings w by a breadth-first exploration of the product of the compiled automaton (sets of states, from the feature-gated dump) with the Brzozowski-derivative terms of the source patterns over the alphabet atoms (classes of scalar values with identical membership in every registered class of the scanner, measured with the scanner's own predicate on all 1 112 064 scalar values, and in every class of the source patterns); the same for each lookahead automaton; also: start state not accepting, class ids registered; a difference yields a shortest witness which is confirmed by direct simulation on the witness string and by the set-based matcher; non-trivial = program with >= 2 patterns in a mode whose languages overlap (a reachable product state accepts two token types), or with a nullable pattern, an empty alternative, a counted repetition"
+        "program = list of modes (1-4 patterns each, lookaheads of both polarities, ~9% with a nullable lookahead pattern, ~20% with a token type shared by several patterns of a mode, ~37% with a keyword-set pattern (near twins), ~9% with a pattern that matches only the empty string, ~8% with a degenerate mode made of such patterns and one run of a single character) from the generator, the bounded-exhaustive tiny pattern pairs, and the repository corpora (tests/data/*.json, benches/veryl_modes.json, README list) translated through regex-syntax; per program the equality 'token types accepted by the compiled automaton after w = token types whose pattern matches w' is decided for ALL non-empty strings w by a breadth-first exploration of the product of the compiled automaton (sets of states, from the feature-gated dump) with the Brzozowski-derivative terms of the source patterns over the alphabet atoms (classes of scalar values with identical membership in every registered class of the scanner, measured with the scanner's own predicate on all 1 112 064 scalar values, and in every class of the source patterns); the same for each lookahead automaton; also: start state not accepting, class ids registered; a difference yields a shortest witness which is confirmed by direct simulation on the witness string and by the set-based matcher; non-trivial = program with >= 2 patterns in a mode whose languages overlap (a reachable product state accepts two token types), or with a nullable pattern, an empty alternative, a counted repetition"
     }
     fn assumptions(&self) -> Vec<String> {
         vec![
